@@ -27,7 +27,7 @@ CHECKS = {
          "Histories drain and continue with up to 200 pulls; oracle over real-time order of end reports and later calls.", "DESIGN §4 C05", TRUST),
  "C06": (True, "sched", "exploration", "property-based testing (E1 + E2) of histories with skip_to_end, real-time oracle + duplicate/order/index oracles; schedule enumeration for small programs",
          "Skips at arbitrary points, concurrent with pulls and each other, followed by further pulls.", "DESIGN §4 C06", TRUST),
- "C07": (True, "sched", "exploration", "property-based testing over generated schedules with a vector-clock happens-before oracle (C11 release/acquire rules from the orderings in the source) and a mutual-exclusion probe",
+ "C07": (True, "sched+plain", "exploration", "property-based testing over generated schedules with a vector-clock happens-before oracle (C11 release/acquire rules from the orderings in the source) and a mutual-exclusion probe; plus generated real-thread programs executed under ThreadSanitizer",
          "The wrapped iterator is a harness probe; every execution of its next is checked for overlap and for a happens-before edge from the previous execution.", "DESIGN §4 C07", TRUST + " A source scan for synchronisation the shim cannot see switches the happens-before oracle off (reported in the evidence) instead of raising a false race."),
  "C08": (True, "plain+sched", "exploration", "property-based testing with an identity ledger (destructor counting per element)",
          "Consuming kinds with destructor-counting elements (24-byte and zero-sized); histories ending in drop or into_seq_iter at every progress class; each element must be dropped exactly once and have at most one owner.", "DESIGN §4 C08", TRUST_SEQ),
